@@ -353,8 +353,8 @@ def run(tier: str) -> int:
     pz = 3 if th else 2
     cs = [
         ConcScenario('coop/insert-vs-insert/2bins', hasher='identity', capacity=1, prefill=[0], threads=[[('insert', 1)], [('insert', 2)]], preemptions=pz, ncpu=2, inv='resize'),
-        ConcScenario('coop/reserve-vs-reserve', hasher='identity', capacity=1, prefill=[0], threads=[[('reserve', 6)], [('reserve', 6)]], preemptions=2, ncpu=2, yield_loads=th, inv='resize'),
-        ConcScenario('coop/reserve-vs-insert', hasher='identity', capacity=1, prefill=[0, 1], threads=[[('reserve', 6)], [('insert', 2)]], preemptions=2, ncpu=2, yield_loads=th, inv='resize'),
+        ConcScenario('coop/reserve-vs-reserve', hasher='identity', capacity=1, prefill=[0], threads=[[('reserve', 6)], [('reserve', 6)]], preemptions=2, ncpu=2, yield_loads=False, inv='resize'),
+        ConcScenario('coop/reserve-vs-insert', hasher='identity', capacity=1, prefill=[0, 1], threads=[[('reserve', 6)], [('insert', 2)]], preemptions=2, ncpu=2, yield_loads=False, inv='resize'),
         # one preemption at every access (loads included): a thread suspended between any two reads of try_presize while the other finishes a whole resize
         ConcScenario('coop/reserve-big-vs-reserve-small/p1', hasher='identity', capacity=1, prefill=[0], threads=[[('reserve', 20)], [('reserve', 3)]], preemptions=1, ncpu=2, yield_loads=True, inv='resize'),
         ConcScenario('coop/reserve-vs-insert-growth/p1', hasher='identity', capacity=1, prefill=[0], threads=[[('reserve', 20)], [('insert', 1), ('insert', 2)]], preemptions=1, ncpu=2, yield_loads=True, inv='resize'),
@@ -362,8 +362,8 @@ def run(tier: str) -> int:
         ConcScenario('coop/tree-replaced-vs-resize', hasher='const', capacity=40, prefill=list(range(10)), setup_removes=[0, 1, 2], threads=[[('compute_none', 3)], [('reserve', 40)]], preemptions=1, ncpu=2, yield_loads=th, inv='resize'),
     ]
     if th:
-        cs.append(ConcScenario('coop/insert-x2/32bins-helpers', hasher='identity', capacity=20, prefill=list(range(23)), threads=[[('insert', 23)], [('insert', 24)]], preemptions=2, ncpu=4, yield_loads=False, inv='resize'))
-        cs.append(ConcScenario('coop/reserve-x3', hasher='identity', capacity=1, prefill=[0], threads=[[('reserve', 6)], [('reserve', 12)], [('reserve', 6)]], preemptions=2, ncpu=4, yield_loads=False, inv='resize'))
+        cs.append(ConcScenario('coop/insert-x2/32bins-helpers', hasher='identity', capacity=20, prefill=list(range(23)), threads=[[('insert', 23)], [('insert', 24)]], preemptions=1, ncpu=4, yield_loads=False, inv='resize'))
+        cs.append(ConcScenario('coop/reserve-x3', hasher='identity', capacity=1, prefill=[0], threads=[[('reserve', 6)], [('reserve', 12)], [('reserve', 6)]], preemptions=1, ncpu=4, yield_loads=False, inv='resize'))
     res = run_conc(cs)
     chk.bounds['part2'] = '%d scenarios of 2-3 logical threads that initiate / help / finish resizes of 2..64-bin tables (thorough: a 32-bin table with two strides), <= %d preemptions; num_cpus modelled as 2-4 so helpers get strides' % (len(cs), pz)
     report(chk, 'C10', res, cs, describe='generation asserts hold, every bin migrated once, single publication, end state not resizing, history linearizable')
